@@ -563,6 +563,8 @@ func streamLimit(c *Ctx) {
 	unaryLengthProbes(c)
 	unaryEncodedBulkProbes(c)
 	compressedTerminatorProbes(c)
+	readLimitOptionOrderProbes(c, "limit-within-rejected")
+	highRatioProbes(c)
 	// random mixes
 	nRand := 400
 	if c.Thorough() {
@@ -688,6 +690,203 @@ func unaryEncodedBulkProbes(c *Ctx) {
 				}
 				if alloc > uint64(8*n+(2<<20)) {
 					c.Fail("limit-encoded-bulk-buffered", desc, fmt.Sprintf("allocated %d bytes", alloc), "receiver buffered far more than its read limit from the wire because the body names a Content-Encoding")
+				}
+			}
+		}
+	}
+}
+
+// repCompressor: "n copies of byte b" as 5 bytes per run - an algorithm whose expansion ratio has
+// no useful bound (nothing entitles a receiver to assume DEFLATE's).
+type repCompressor struct {
+	w   io.Writer
+	buf bytes.Buffer
+}
+
+func (c *repCompressor) Write(p []byte) (int, error) { return c.buf.Write(p) }
+func (c *repCompressor) Close() error {
+	data := c.buf.Bytes()
+	var out []byte
+	for i := 0; i < len(data); {
+		j := i
+		for j < len(data) && data[j] == data[i] {
+			j++
+		}
+		n := j - i
+		out = append(out, byte(n>>24), byte(n>>16), byte(n>>8), byte(n), data[i])
+		i = j
+	}
+	_, err := c.w.Write(out)
+	return err
+}
+func (c *repCompressor) Reset(w io.Writer) { c.w = w; c.buf.Reset() }
+
+type repDecompressor struct {
+	src  io.Reader
+	run  int
+	b    byte
+	done bool
+}
+
+func (d *repDecompressor) Read(p []byte) (int, error) {
+	n := 0
+	for n < len(p) {
+		if d.run == 0 {
+			var h [5]byte
+			if _, err := io.ReadFull(d.src, h[:]); err != nil {
+				if n > 0 {
+					return n, nil
+				}
+				if err == io.ErrUnexpectedEOF {
+					return 0, errors.New("rep: truncated run")
+				}
+				return 0, err
+			}
+			d.run, d.b = int(h[0])<<24|int(h[1])<<16|int(h[2])<<8|int(h[3]), h[4]
+			continue
+		}
+		k := d.run
+		if k > len(p)-n {
+			k = len(p) - n
+		}
+		for i := 0; i < k; i++ {
+			p[n+i] = d.b
+		}
+		n += k
+		d.run -= k
+	}
+	return n, nil
+}
+func (d *repDecompressor) Close() error            { return nil }
+func (d *repDecompressor) Reset(r io.Reader) error { d.src, d.run = r, 0; return nil }
+func newRepCompressor() connect.Compressor         { return &repCompressor{} }
+func newRepDecompressor() connect.Decompressor     { return &repDecompressor{} }
+
+// highRatioProbes (oracle only): with a registered algorithm that expands 5 bytes to a megabyte
+// the limit still bounds what is delivered and what is buffered - on the handler and on the
+// client - while a message of half the limit passes.
+func highRatioProbes(c *Ctx) {
+	const n = 65536
+	for _, proto := range []string{"connect", "grpc", "grpcweb"} {
+		for _, side := range []string{"handler", "client"} {
+			for _, size := range []int{n / 2, 1 << 20} {
+				desc := fmt.Sprintf("%s unary call, algorithm \"rep\" (5 bytes per run), a %d-byte message of one repeated byte travelling towards the %s whose limit is %d", proto, size, side, n)
+				c.Count("limit-high-ratio-probe")
+				var alloc uint64
+				got := safely(func() string {
+					hopts := []connect.HandlerOption{connect.WithCodec(rawCodec{"raw"}), connect.WithCompression("rep", newRepDecompressor, newRepCompressor)}
+					copts := []connect.ClientOption{connect.WithCodec(rawCodec{"raw"}), connect.WithAcceptCompression("rep", newRepDecompressor, newRepCompressor), connect.WithSendCompression("rep")}
+					if side == "handler" {
+						hopts = append(hopts, connect.WithReadMaxBytes(n))
+					} else {
+						copts = append(copts, connect.WithReadMaxBytes(n))
+					}
+					if proto == "grpc" {
+						copts = append(copts, connect.WithGRPC())
+					} else if proto == "grpcweb" {
+						copts = append(copts, connect.WithGRPCWeb())
+					}
+					ran := false
+					h := connect.NewUnaryHandler("/s/m", func(ctx context.Context, r *connect.Request[[]byte]) (*connect.Response[[]byte], error) {
+						ran = true
+						out := []byte{1}
+						if side == "client" {
+							out = bytes.Repeat([]byte{8}, size)
+						}
+						return connect.NewResponse(&out), nil
+					}, hopts...)
+					cl := connect.NewClient[[]byte, []byte](&inprocClient{h: h}, "http://h/s/m", copts...)
+					msg := []byte{1}
+					if side == "handler" {
+						msg = bytes.Repeat([]byte{8}, size)
+					}
+					runtime.GC()
+					var before, after runtime.MemStats
+					runtime.ReadMemStats(&before)
+					res, err := cl.CallUnary(context.Background(), connect.NewRequest(&msg))
+					runtime.ReadMemStats(&after)
+					alloc = after.TotalAlloc - before.TotalAlloc
+					if err != nil {
+						return fmt.Sprintf("rejected: %s (handler ran: %v)", connect.CodeOf(err), ran && side == "handler")
+					}
+					return fmt.Sprintf("accepted %d bytes", len(*res.Msg))
+				})
+				if size <= n {
+					if !strings.HasPrefix(got, "accepted") {
+						c.Fail("limit-within-rejected", desc, got, "a message within the limit was not delivered")
+					}
+					continue
+				}
+				if got != "rejected: invalid_argument (handler ran: false)" {
+					c.Fail("limit-oversize-delivered", desc, got, "a message that decompresses to 16 times the limit must fail with invalid_argument before it reaches user code")
+				}
+				if alloc > uint64(8*n+(3<<20)) {
+					c.Fail("limit-encoded-bulk-buffered", desc, fmt.Sprintf("allocated %d bytes", alloc), "receiver inflated far more than its read limit")
+				}
+			}
+		}
+	}
+}
+
+// readLimitOptionOrderProbes (oracle only): options are applied in order, the last
+// WithReadMaxBytes is the limit N (0 = none) - a shared base configuration with a later override,
+// nested in WithOptions or not, on the handler or on the client. A 1000-byte message is
+// accepted iff it is at most N.
+func readLimitOptionOrderProbes(c *Ctx, key string) {
+	type tc struct {
+		limits []int
+		accept bool
+	}
+	for _, t := range []tc{{[]int{64, 4096}, true}, {[]int{64, 0}, true}, {[]int{4096, 64}, false}, {[]int{0, 64}, false}, {[]int{64, 64, 2000}, true}} {
+		for _, side := range []string{"handler", "client"} {
+			for _, proto := range []string{"connect", "grpc", "grpcweb"} {
+				for _, nested := range []bool{false, true} {
+					desc := fmt.Sprintf("WithReadMaxBytes given as %v (nested in WithOptions: %v) on the %s, %s unary echo of a 1000-byte message", t.limits, nested, side, proto)
+					c.Count("limit-option-order")
+					got := safely(func() string {
+						var lim []connect.Option
+						for _, n := range t.limits {
+							lim = append(lim, connect.WithReadMaxBytes(n))
+						}
+						if nested {
+							lim = []connect.Option{connect.WithOptions(lim[0], connect.WithOptions(lim[1:]...))}
+						}
+						hopts := []connect.HandlerOption{connect.WithCodec(rawCodec{"raw"})}
+						copts := []connect.ClientOption{connect.WithCodec(rawCodec{"raw"})}
+						for _, o := range lim {
+							if side == "handler" {
+								hopts = append(hopts, o)
+							} else {
+								copts = append(copts, o)
+							}
+						}
+						if proto == "grpc" {
+							copts = append(copts, connect.WithGRPC())
+						} else if proto == "grpcweb" {
+							copts = append(copts, connect.WithGRPCWeb())
+						}
+						h := connect.NewUnaryHandler("/s/m", func(ctx context.Context, r *connect.Request[[]byte]) (*connect.Response[[]byte], error) {
+							out := append([]byte{}, (*r.Msg)...)
+							return connect.NewResponse(&out), nil
+						}, hopts...)
+						cl := connect.NewClient[[]byte, []byte](&inprocClient{h: h}, "http://h/s/m", copts...)
+						msg := bytes.Repeat([]byte{9}, 1000)
+						res, err := cl.CallUnary(context.Background(), connect.NewRequest(&msg))
+						if err != nil {
+							return "rejected: " + connect.CodeOf(err).String()
+						}
+						if !bytes.Equal(*res.Msg, msg) {
+							return "altered"
+						}
+						return "accepted"
+					})
+					want := "accepted"
+					if !t.accept {
+						want = "rejected: invalid_argument"
+					}
+					if got != want {
+						c.Fail(key, desc, got, "the last WithReadMaxBytes given is the limit: want "+want)
+					}
 				}
 			}
 		}
